@@ -327,6 +327,10 @@ class Unary:
         dom = UNARY[p['f']][3]
         if dom:
             dom(x)
+        if p['f'] in ('abs', 'sign') and ctx.get('trace') is not None:
+            ctx['trace'].append(numpy.sign(x).astype(int).tobytes())
+            if x.dtype.kind == 'f' and x.size and numpy.abs(x).min() < ctx.get('kink', 0):
+                raise OutOfDomain('near kink')
         with numpy.errstate(all='raise'):
             try:
                 return UNARY[p['f']][2](x)
@@ -516,6 +520,14 @@ class Binary:
         dom = BINARY[p['f']][3]
         if dom:
             dom(a, b)
+        if ctx.get('trace') is not None and p['f'] in ('min', 'max', 'greater', 'less', 'equal', 'mod', 'floordiv') and a.dtype.kind == 'f':
+            with numpy.errstate(all='ignore'):
+                if p['f'] in ('mod', 'floordiv'):
+                    ctx['trace'].append(numpy.floor_divide(a, b).astype(int).tobytes())
+                else:
+                    ctx['trace'].append(numpy.sign(a - b).astype(int).tobytes())
+                    if numpy.size(a - b) and numpy.abs(a - b).min() < ctx.get('kink', 0):
+                        raise OutOfDomain('near kink')
         with numpy.errstate(all='raise'):
             try:
                 return BINARY[p['f']][2](a, b)
@@ -1128,6 +1140,78 @@ class Legendre:
         return numpy.polynomial.legendre.legvander(vals[0], p['d']).reshape(vals[0].shape + (p['d'] + 1,))
 
 
+@op('fem', 1.2)
+class Fem:
+    """FEM-assembly shaped composite: sum over elements of element blocks (Elemwise data of element-dependent size)
+    scattered by element-dependent dof lists; the loop-dependent shapes stay inside the composite."""
+    @staticmethod
+    def gen(pool, a=None):
+        rng = pool.rng
+        nelems = int(rng.integers(1, 5))
+        n = int(rng.integers(2, 7))
+        rank = int(rng.choice([1, 2]))
+        kind = str(rng.choice(['f', 'f', 'i']))
+        same_size = rng.random() < .3
+        size0 = int(rng.integers(1, 4))
+        dofs, blocks = [], []
+        for e in range(nelems):
+            m = size0 if same_size else int(rng.integers(1, 4))
+            d = rng.integers(0, n, size=m) if rng.random() < .3 else rng.permutation(n)[:m]
+            d = numpy.asarray(d, dtype=numpy.int64)
+            m = len(d)
+            if kind == 'f':
+                b = numpy.round(rng.normal(size=(m,) * rank), 2)
+            else:
+                b = rng.integers(-3, 4, size=(m,) * rank)
+            dofs.append(encode(d))
+            blocks.append(encode(numpy.asarray(b, dtype=NPDT[kind])))
+        name = f'i{pool.nloops}'
+        pool.nloops += 1
+        args = []
+        scale = str(rng.choice(['none', 'perelem', 'scalar']))
+        if scale == 'perelem':
+            args.append(Arg.gen(pool, want_kind=kind, shape=(nelems,)))
+        elif scale == 'scalar':
+            try:
+                args.append(pool.pick(lambda q: q.kind == kind and q.ndim == 0 and not q.loops).i)
+            except Reject:
+                args.append(Arg.gen(pool, want_kind=kind, shape=()))
+        return pool.add('fem', args, dict(name=name, nelems=nelems, n=n, rank=rank, dofs=dofs, blocks=blocks, scale=scale), (n,) * rank, kind)
+
+    @staticmethod
+    def build(ev, kids, p, node, ctx):
+        from nutils import types
+        i = ev.loop_index(p['name'], p['nelems'])
+        dofs = ev.Elemwise(tuple(types.arraydata(decode(d)) for d in p['dofs']), i, int)
+        vals = ev.Elemwise(tuple(types.arraydata(decode(b)) for b in p['blocks']), i, pydtype(node['kind']))
+        if p['scale'] == 'perelem':
+            vals = ev.multiply(vals, ev.Take(kids[0], i))
+        elif p['scale'] == 'scalar':
+            vals = ev.multiply(vals, kids[0])
+        n = ev.constant(p['n'])
+        if p['rank'] == 1:
+            r = ev._inflate(vals, dofs, n, 0)
+        else:
+            r = ev._inflate(ev._inflate(vals, dofs, n, 1), dofs, n, 0)
+        return ev.loop_sum(r, i)
+
+    @staticmethod
+    def shadow(vals, p, node, ctx):
+        out = numpy.zeros(node['shape'], NPDT[node['kind']])
+        for e in range(p['nelems']):
+            d = decode(p['dofs'][e])
+            b = decode(p['blocks'][e])
+            if p['scale'] == 'perelem':
+                b = b * vals[0][e]
+            elif p['scale'] == 'scalar':
+                b = b * vals[0]
+            if p['rank'] == 1:
+                numpy.add.at(out, d, b)
+            else:
+                numpy.add.at(out, (d[:, None], d[None, :]), b)
+        return out
+
+
 # ---- loops -----------------------------------------------------------------
 
 @op('loop_sum', 0.)
@@ -1210,6 +1294,8 @@ def _weights(profile):
             names.append(name)
             wt = cls.weight
             if profile == 'int' and name in ('intops',):
+                wt *= 3
+            if profile == 'sparse' and name in ('inflate', 'diagonalize', 'fem', 'insertaxis', 'ravel', 'unravel', 'stack', 'concat'):
                 wt *= 3
             w.append(wt)
     w = numpy.array(w)
@@ -1437,7 +1523,7 @@ def draw_args(case, rng, style=None):
     return vals
 
 
-def shadow(case, argvals, want_nodes=False):
+def shadow(case, argvals, want_nodes=False, trace=None, kink=0.):
     """Evaluate the numpy meaning.  Returns list of output arrays (and optionally per-node values keyed by (node, env))."""
     nodes = case['nodes']
     memo = {}
@@ -1465,7 +1551,7 @@ def shadow(case, argvals, want_nodes=False):
                 r = numpy.concatenate(parts, -1) if L else numpy.zeros(d['shape'], NPDT[d['kind']])
         else:
             kids = [val(a, env) for a in d['args']]
-            r = OPS[o].shadow(kids, d['p'], d, dict(args=argvals, env=env))
+            r = OPS[o].shadow(kids, d['p'], d, dict(args=argvals, env=env, trace=trace, kink=kink))
         r = _check(numpy.asarray(r))
         if r.dtype != NPDT[d['kind']]:
             if r.dtype.kind != numpy.dtype(NPDT[d['kind']]).kind:
@@ -1510,6 +1596,9 @@ def describe(case):
             p['v'] = numpy.array2string(decode(d['p']['v']), threshold=12, precision=3).replace('\n', '')
         if 'dof' in d['p']:
             p['dof'] = decode(d['p']['dof']).tolist()
+        if 'dofs' in d['p']:
+            p['dofs'] = [decode(x).tolist() for x in d['p']['dofs']]
+            p['blocks'] = [numpy.array2string(decode(x), precision=2).replace('\n', '') for x in d['p']['blocks']]
         lines.append(f"n{i} = {d['op']}({', '.join('n%d' % a for a in d['args'])}{', ' if d['args'] and p else ''}{p if p else ''}) :: {d['kind']}{tuple(d['shape'])}" + (f" loops={d['loops']}" if d['loops'] else ''))
     lines.append('outputs: ' + ', '.join('n%d' % o for o in case['outputs']))
     return '\n'.join(lines)
